@@ -51,6 +51,15 @@ CLAIMED = {
  'C19': ('fault_enumeration', 'process-level observer of the real tools + system-call fault injection with strace (every k-th read/write, open, getrandom; EINTR), tamper enumeration',
          'Round trips over boundary sizes and option styles; a bit flip at every byte and every truncation length of encrypted files; failure of the k-th write/read for every k with confirmation that the fault fired; asconsum digests and check mode against the reference.',
          'strace/ptrace injects the faults; tty password prompting not exercised.', '4 C19'),
+ 'C09': ('exploration', 'cross-build transcript differencing of one deterministic workload (per-case output digests) over build configurations',
+         '20 configurations quick (5 backends, all (key,data) pairs on the C64 backend, MAX_SHARES 2/3 clamps, 3 acquire/release-checker builds) or 144 thorough; per-case digests of every library output compared across builds; the workload references all 187 public functions; crashes/aborts/build failures are violations.',
+         'Equality only on the transcript inputs; each harness also checks against the reference in the same run.', '4 C09'),
+ 'C11': ('exploration', 'valgrind memcheck taint tracking (secrets marked undefined) on the shipped -O3 objects incl. assembly',
+         'Every keyed primitive driven over public-shape grids with keys, plaintext, passwords, fed entropy and all getrandom bytes tainted; any secret-dependent branch or address is a memcheck report; a planted branch proves the monitor is live in every build.',
+         'Executed paths only; not micro-architectural; C++ wrapper branches on the public result excluded.', '4 C11'),
+ 'C16': ('exploration', 'ThreadSanitizer build + helgrind + DRD on the -O3 build over a multi-threaded workload with shared const objects; per-thread results vs sequential',
+         '2..16 threads, thousands of thread-operations per run on own objects and shared pre-computed ISAP / masked keys; three race detectors each proven live by a planted race; results compared with sequential execution.',
+         'Schedules sampled; happens-before detectors.', '4 C16'),
  'C08': ('exploration', 'differential runtime monitor vs reference model + ASan/UBSan + guard pages',
          'Real library built for each of the 5 host backends (release and ASan+UBSan), every (offset,size) pair exhaustively, '
          'structured + random states for all 12 starting rounds, each output compared with an independent reference permutation.',
